@@ -554,6 +554,7 @@ for _n in ('star-import-project', 'star-import-conditional-names', 'star-import-
            'star-import-then-rebind', 'rebind-then-star-import', 'star-import-all-listed', 'star-import-all-unlisted-keeps-earlier-binding', 'global-statement-at-module-level'):
     FEATURES[_n]['toplevel'] = True
 
+FEATURES['annotation-reads-own-target']['toplevel'] = True      # the annotation of a local variable of a function is not evaluated
 FEATURES['global-statement-at-module-level']['alone'] = True     # `global x` must precede every use of x
 
 
